@@ -89,6 +89,12 @@ class CacheDriver:
         self.nest = self.inner = None
         drv = self
         kw = dict(limit=limit, expiration=float(expn) if expn else None)
+        if limit == 1 and not expn:
+            # the defaults: the decorator is used BARE (`@cache`), without arguments or parentheses
+            _plain = cache
+
+            def cache(**_):      # noqa: F811
+                return _plain
 
         def body(recv, args, kwargs):
             # (the receiver is remembered by slot and generation, not by reference: a discarded one has to be collectable)
